@@ -43,6 +43,17 @@ VAR: /\\$[a-z]+/
 DIM: /[0-9]+\\.[0-9]+[a-z]+/
 %ignore " "
 ''', ['show', '=', 'a', ',', '+', ';', 'let', '$x', 'be', '1.5em']),
+    # rule names that coincide with attribute and method names of lark's own visitor/transformer classes: a rule's name is free
+    'names': ('''
+start: (tokens | transform | term_subs | visit)+
+tokens: "t" NAME ";"
+transform: "x" NAME ";"
+term_subs: "s" NAME NAME ";"
+visit: "v" data ";"
+data: NAME "," NAME
+NAME: /[a-z][a-z]+/
+%ignore " "
+''', ['t', 'x', 's', 'v', 'ab', ';', ',', 'cd']),
     'json': ('''
 ?start: value
 ?value: dict | list | STR | NUM | "true" -> t | "null" -> n
